@@ -320,10 +320,14 @@ func RunEnum[C any](t *testing.T, id string, cases []C, exec func(C) *Failure, n
 		stats.record(c, nt, labels)
 		sem <- struct{}{}
 		wg.Add(1)
-		go func(c C) {
+		go func(i int, c C) {
 			defer wg.Done()
 			defer func() { <-sem }()
+			// one journal per case in flight: if the process dies, the driver replays each of them to find the one that kills it
+			journal := fmt.Sprintf("journal-%s-%s-%d.json", test, workerID(), i)
+			writeCaseFile(journal, id, test, c, nil)
 			f := exec(c)
+			os.Remove(filepath.Join(outDir(), journal))
 			if f == nil {
 				return
 			}
@@ -339,7 +343,7 @@ func RunEnum[C any](t *testing.T, id string, cases []C, exec func(C) *Failure, n
 			seen[f.Key] = true
 			writeCaseFile(fmt.Sprintf("fail-%s-%s-%d.json", test, workerID(), len(seen)), id, test, c, f)
 			t.Errorf("%s", f.Error())
-		}(c)
+		}(i, c)
 	}
 	wg.Wait()
 	Count("enumerated:"+test, len(cases))
